@@ -16,7 +16,8 @@ META = {
                    "from ClientStream::new(io).tls(domain, config), and error edges return Err (no plain stream is constructed: no fallback); (C12.3) the server name handed to "
                    "rustls derives from uri.host() and a missing host yields NoDomain before any connect; (C12.4) no undischarged panic site on the TLS connect path; "
                    "(C12.5) the client TlsStream reads/writes only through handshake(..), whose I/O action runs only after the handshake future resolved."
-                   " C12.1 is now a decision table: with braid = Tls the expanded unit of TlsTransport::call is evaluated abstractly for scheme in {https, wss, http, ws, ftp, none} and must reach exactly the TLS wrapper / exactly the plain connect.",
+                   " C12.1 is now a decision table: with braid = Tls the expanded unit of TlsTransport::call is evaluated abstractly for scheme in {https, wss, http, ws, ftp, none} and must reach exactly the TLS wrapper / exactly the plain connect."
+                   " C12.3 is now the host table of TlsTransportWrapper::call (no host / invalid host / valid host -> error(NoDomain) / error(InvalidDomain) / connect + TLS future for exactly that host), which also discharges the server-name expect of TlsStream::new.",
     "trusted_base": ["rustc type/borrow checker", "rustls verifies the certificate against the ServerName it is given", "tokio_rustls::Connect resolves Ok only after a completed handshake"],
     "assumptions": [],
     "undecided": "rustls' certificate verification; bytes on the wire",
